@@ -899,7 +899,7 @@ impl<'de, R: Read<'de>> Parser<R> {
                             }
                             pair.set_cdr(self.expect_value()?);
                             match self.parse_whitespace()? {
-                                Some(b')') => return Ok(Value::Cons(list)),
+                                Some(c) if c == terminator => return Ok(Value::Cons(list)),
                                 Some(_) => {
                                     return Err(self.peek_error(ErrorCode::TrailingCharacters))
                                 }
@@ -961,7 +961,7 @@ impl<'de, R: Read<'de>> Parser<R> {
                             pair.set_cdr(cdr);
                             meta[1] = cdr_meta;
                             match self.parse_whitespace()? {
-                                Some(b')') => return Ok(Some((list, list_meta))),
+                                Some(c) if c == terminator => return Ok(Some((list, list_meta))),
                                 Some(_) => {
                                     return Err(self.peek_error(ErrorCode::TrailingCharacters))
                                 }
